@@ -37,6 +37,7 @@ QUIRK_EVENT = {
     "subLeftNarrow": "subLeftNarrow",
     "mulEvenConst": "mulEvenConst",
     "modNonPow2": "modNonPow2",
+    "modVarDivisor": "modVarDivisor",
     "charEqZip": "charEqZip",
     "tupleAssignFlat": "tupleAssignFlat",
     "noReturnAccepted": "noReturn",
@@ -44,7 +45,7 @@ QUIRK_EVENT = {
     "matrixMaxJ": "matrixNonSquare",
 }
 # findings whose repair makes the library reject the program
-REJECTING = {"modNonPow2", "noReturnAccepted", "negIndexAccepted"}
+REJECTING = {"modNonPow2", "modVarDivisor", "noReturnAccepted", "negIndexAccepted"}
 ORACLE_QUIRKS = {"matrixMaxJ"}      # emulated in pysem (the defect is in ast2ast, outside the Lean model)
 
 
